@@ -10,16 +10,20 @@ open EIO EIO.Codec
 theorem inv_init (o : Opts) : Inv (init o) := by
   have hs : ∀ sid, (init o).sock sid = default := fun sid => by
     unfold World.sock init; simp [Array.getD]
-  refine ⟨logOK_nil, ?_, ?_, ?_, ?_, ?_, ?_⟩
+  refine ⟨logOK_nil, ?_, ?_, ?_, ?_, ?_, ?_, ?_⟩
   · intro sid h; exact absurd h (closeIn_nil sid)
   · intro sid h; unfold closedW at h; rw [hs] at h; cases h
   · intro sid; rw [hs]
-    refine ⟨fun h => ?_, fun h => ?_⟩
+    refine ⟨fun h => ?_, fun h => ?_, fun h => ?_⟩
+    · cases h
     · cases h
     · cases h
   · intro sid h; cases h
   · exact List.nodup_nil
   · intro sid h; rw [hs] at h; cases h
+  · refine ⟨fun sid => ?_, fun e he => (by cases he), logHist_nil, flushTight_nil⟩
+    rw [hs]
+    exact ⟨⟨[], rfl, fun _ => rfl⟩, ⟨[], rfl, fun _ => rfl⟩, ⟨[], rfl, fun _ => rfl⟩, rfl⟩
 
 /-- the invariant holds in every reachable world -/
 theorem reach_inv (o : Opts) (ops : List Op) : Inv (run o ops) := by
@@ -154,6 +158,72 @@ theorem c11_response_write_once (o : Opts) (ops ops' : List Op) (r : Nat) (x : R
     ((run o (ops ++ ops')).reqs.getD r default).resp = some x :=
   (run_ext o ops ops').reqs.2 r x h
 
+/-! ### C01 / C18: the accounts of the write path
+
+`createdPkts sid l` are the packets `sendPacket` accepted for session `sid` (its packetCreate entries),
+`flushedPkts sid l` the packets `flush` handed to a transport (the batches of its flush entries, concatenated),
+`createdCbs` / `flushedCbs` / `ranCbs` the send callbacks accepted, handed over with a batch, and run.
+A prefix `pre` of the log is the log as it stood at some earlier moment. -/
+
+/-- at every moment of every history, what has been handed to a transport is a prefix of what was accepted:
+    packets are flushed in the order of their sends, each at most once, never before its packetCreate event -/
+theorem c01_flushed_is_prefix_of_accepted (o : Opts) (ops : List Op) (sid : Nat) (pre : List (Nat × SEv))
+    (hp : pre <+: (run o ops).slog) : flushedPkts sid pre <+: createdPkts sid pre :=
+  ((reach_inv o ops).acc.hist pre hp sid).1
+
+/-- nothing accepted is lost while the session lives: accepted = handed over ++ still buffered -/
+theorem c01_accepted_is_flushed_or_buffered (o : Opts) (ops : List Op) (sid : Nat)
+    (hn : ((run o ops).sock sid).rs ≠ .closed) :
+    createdPkts sid (run o ops).slog = flushedPkts sid (run o ops).slog ++ ((run o ops).sock sid).wbuf := by
+  obtain ⟨rest, e, i⟩ := ((reach_inv o ops).acc.ses sid).pk
+  rw [e, i hn]
+
+/-- a flush hands over everything accepted so far, packets and callbacks: right after a flush entry both
+    queues are empty, so the flush event carries exactly the packets accepted since the previous flush -/
+theorem c18_flush_carries_everything_buffered (o : Opts) (ops : List Op) (pre : List (Nat × SEv)) (sid : Nat)
+    (b : List Pkt) (c : List Nat) (hp : pre ++ [(sid, SEv.flush b c)] <+: (run o ops).slog) :
+    createdPkts sid (pre ++ [(sid, SEv.flush b c)]) = flushedPkts sid (pre ++ [(sid, SEv.flush b c)]) ∧
+    createdCbs sid (pre ++ [(sid, SEv.flush b c)]) = flushedCbs sid (pre ++ [(sid, SEv.flush b c)]) :=
+  (reach_inv o ops).acc.tight pre sid b c hp
+
+/-- at every moment of every history: the callbacks that have run are a prefix of the callbacks whose batch
+    has been flushed, which are a prefix of the callbacks handed to Send — callbacks run in the order of their
+    sends, each at most once, and never before the flush event of the batch that contains their packet -/
+theorem c18_callbacks_in_order_after_their_flush (o : Opts) (ops : List Op) (sid : Nat) (pre : List (Nat × SEv))
+    (hp : pre <+: (run o ops).slog) :
+    ranCbs sid pre <+: flushedCbs sid pre ∧ flushedCbs sid pre <+: createdCbs sid pre :=
+  ⟨((reach_inv o ops).acc.hist pre hp sid).2.2.1, ((reach_inv o ops).acc.hist pre hp sid).2.1⟩
+
+/-- while the session lives, the callbacks of flushed batches that have not run yet are exactly the queued groups -/
+theorem c18_pending_callbacks_are_queued (o : Opts) (ops : List Op) (sid : Nat)
+    (hn : ((run o ops).sock sid).rs ≠ .closed) :
+    flushedCbs sid (run o ops).slog = ranCbs sid (run o ops).slog ++ ((run o ops).sock sid).sentCb.flatten := by
+  obtain ⟨rest, e, i⟩ := ((reach_inv o ops).acc.ses sid).run
+  rw [e, i hn]
+
+/-- callbacks of a session that closes first are dropped: nothing of the session is logged after its close
+    entry (`c03_close_is_final`), callbacks included -/
+theorem c18_no_callback_after_close (o : Opts) (ops : List Op) (pre : List (Nat × SEv)) (sid id : Nat)
+    (post : List (Nat × SEv)) (h : (run o ops).slog = pre ++ (sid, SEv.cb id) :: post) : ¬ closeIn sid pre :=
+  (reach_inv o ops).logOK pre (sid, SEv.cb id) post h rfl
+
+/-! ### C08: the switch happens at most once -/
+
+/-- at every moment of every history a session has at most one `upgrade` entry -/
+theorem c08_at_most_one_upgrade (o : Opts) (ops : List Op) (sid : Nat) (pre : List (Nat × SEv))
+    (hp : pre <+: (run o ops).slog) : upgradeCount sid pre ≤ 1 :=
+  ((reach_inv o ops).acc.hist pre hp sid).2.2.2
+
+/-- the `upgraded` flag says exactly whether the `upgrade` entry has been logged -/
+theorem c08_upgraded_iff_upgrade_event (o : Opts) (ops : List Op) (sid : Nat) :
+    upgradeCount sid (run o ops).slog = (if ((run o ops).sock sid).upgraded then 1 else 0) :=
+  ((reach_inv o ops).acc.ses sid).up
+
+/-- a session that entertains a candidate has not been upgraded -/
+theorem c08_candidate_only_before_upgrade (o : Opts) (ops : List Op) (sid : Nat)
+    (h : ((run o ops).sock sid).cand.isSome) : ((run o ops).sock sid).upgraded = false :=
+  ((reach_inv o ops).sockOK sid).cu h
+
 /-! ### non-vacuity: a concrete history that meets the hypotheses -/
 
 /-- handshake, application close with discard: the session is closed, the log ends with its one close event -/
@@ -161,5 +231,15 @@ example :
     let w := run {} [.hsPolling 4 false none, .settle, .close 0 true, .settle]
     (w.sock 0).rs = .closed ∧ w.registry = [] ∧
     (w.slog.filter fun e => e.1 == 0 && e.2.isClose).length = 1 := by decide +kernel
+
+/-- two sends (one with a callback) while no poll is pending, a poll, then the upgrade of the session:
+    two packetCreate entries, one flush carrying both, the callback run once, one upgrade entry -/
+example :
+    let w := run {} [.hsPolling 4 false none, .settle, .send 0 ⟨.text, [104]⟩ false true none,
+      .send 0 ⟨.binary, [1, 2]⟩ false false none, .poll 0 [], .settle, .wsCandidate 0 4 false,
+      .frame 0 ⟨.text, [50, 112, 114, 111, 98, 101]⟩, .frame 0 ⟨.text, [53]⟩, .settle]
+    (createdPkts 0 w.slog).length = 3 ∧ flushedPkts 0 w.slog = createdPkts 0 w.slog ∧
+    createdCbs 0 w.slog = [1] ∧ ranCbs 0 w.slog = [1] ∧ upgradeCount 0 w.slog = 1 ∧ (w.sock 0).upgraded = true := by
+  decide +kernel
 
 end EIO.Ses
